@@ -29,7 +29,7 @@ def parseAct : List String → Option Act
   | _ => none
 
 def showEv : Ev → Option String
-  | .run name _ _ _ _ _ _ clock => some s!"run {name} at {clock}"
+  | .run name _ _ _ _ _ _ _ _ clock => some s!"run {name} at {clock}"
   | .arm ns now => some s!"arm {ns} at {now}"
   | .added name _ seq => some s!"added {name} seq={seq}"
   | .processed k => some s!"processed {k}"
